@@ -490,6 +490,24 @@ pub fn type_events() -> Vec<Value> {
     out
 }
 
+pub fn outcomes_event() -> Value {
+    use owlchess::types::{DrawReason as D, GameStatus, Outcome, OutcomeFilter as F, WinReason as W};
+    let mut all: Vec<Outcome> = Vec::new();
+    for r in [D::Stalemate, D::InsufficientMaterial, D::Moves75, D::Repeat5, D::Moves50, D::Repeat3, D::Agreement, D::Unknown] {
+        all.push(Outcome::Draw(r));
+    }
+    for c in [Color::White, Color::Black] {
+        for r in [W::Checkmate, W::TimeForfeit, W::InvalidMove, W::EngineError, W::Resign, W::Abandon, W::Unknown] {
+            all.push(Outcome::Win { side: c, reason: r });
+        }
+    }
+    let rows: Vec<Value> = all.iter().map(|o| json!({"o": outcome_json(&Some(*o)), "text": text_json(&o.to_string()),
+        "status": text_json(&GameStatus::from(*o).to_string()),
+        "winner": o.winner().map(|c| color_ix(c) as i32).unwrap_or(-1), "is_force": o.is_force(),
+        "passes": [o.passes(F::Force), o.passes(F::Strict), o.passes(F::Relaxed)]})).collect();
+    json!({"ev": "t_outcomes", "rows": rows, "running": text_json(&GameStatus::from(None).to_string())})
+}
+
 pub fn consts_event() -> Value {
     use owlchess_base::bitboard_consts as bc;
     use owlchess_base::geometry as g;
